@@ -171,7 +171,9 @@ def rcvLine (toks : List String) : String :=
       | some es =>
         let c : RCfg := { b := b, w := w, rep := rep, cleanOnError := clean = "1" }
         let full := snap = "full"
-        let r := rRunStop c full (rInit c) es []
+        -- `nospace`: the handle is writable in name only (a link to /dev/full): every non-empty write fails
+        let s0 := if snap = "nospace" then rInitUnwritable c else rInit c
+        let r := rRunStop c full s0 es []
         let fin := match r.2.status with
           | .running => "open"
           | _ => match rFinalFile c r.2 with
